@@ -50,10 +50,11 @@ func (m *Migrator) MigrateFiles(patterns []string, outputPath string) error {
 	var results []MigrationResult
 	var allWarnings []Warning
 
-	// Create a shared TypeConverter for all transforms (using first package's types)
+	// Create a shared TypeConverter for all transforms, relative to the package
+	// that holds the wire configuration (the first package when none does)
 	var sharedTypeConverter *TypeConverter
-	if len(pkgs) > 0 && pkgs[0].Types != nil {
-		sharedTypeConverter = NewTypeConverter(pkgs[0].Types)
+	if current := m.wirePackage(pkgs); current != nil && current.Types != nil {
+		sharedTypeConverter = NewTypeConverter(current.Types)
 	}
 
 	for _, pkg := range pkgs {
@@ -149,6 +150,22 @@ func (m *Migrator) MigrateFiles(patterns []string, outputPath string) error {
 	}
 
 	slog.Info("Generated kessoku configuration", "output", outputPath)
+	return nil
+}
+
+// wirePackage returns the first package with a file importing wire: the output
+// is written for that package, so its own types must stay unqualified.
+func (m *Migrator) wirePackage(pkgs []*packages.Package) *packages.Package {
+	for _, pkg := range pkgs {
+		for _, file := range pkg.Syntax {
+			if m.parser.FindWireImport(file) != "" {
+				return pkg
+			}
+		}
+	}
+	if len(pkgs) > 0 {
+		return pkgs[0]
+	}
 	return nil
 }
 
